@@ -544,6 +544,10 @@ impl Check for C19 {
             "sequences are sampled; fault placements within a sequence are enumerated completely (single) / completely or sampled (pairs)".into(),
         ]
     }
+    fn hang_cpu_budget(&self, _tier: Tier) -> Option<std::time::Duration> {
+        // a case of this check is a few milliseconds of computation; one that has burnt two minutes of CPU time is not coming back
+        Some(std::time::Duration::from_secs(120))
+    }
     fn cases(&self, tier: Tier) -> u64 {
         tier.pick(480, 6_000)
     }
